@@ -99,6 +99,15 @@ contract("ghedesigner.utilities:borehole_spacing", dict(borehole=Borehole(), coo
 
 contract("ghedesigner.utilities:eskilson_log_times", dict(), inline=True)
 
+def _n_heights(env):
+    h = env.get("h_values")
+    try:
+        n = h.length()
+        return n if isinstance(n, int) else None
+    except Exception:  # noqa: BLE001
+        return None
+
+
 # calc_g_func_for_multiple_lengths with a single height [H]: A-DET naming of the g-function by its arguments
 contract("ghedesigner.gfunction:calc_g_func_for_multiple_lengths",
          dict(b=Real, h_values=FixedList([Real]), r_b=Real, depth=Real, m_flow_borehole=Real, bhe_type=Int, log_time=OpaqueOf("list"),
@@ -106,7 +115,7 @@ contract("ghedesigner.gfunction:calc_g_func_for_multiple_lengths",
          name="ghedesigner.gfunction:calc_g_func_for_multiple_lengths#single",
          ensures=[("same-field", lambda E: And(E.result.bore_locations.id == E.coordinates.id, E.result.bore_locations.len == E.coordinates.len)),
                   ("named-by-arguments", lambda E: E.result.g_key == GFK(E.b, E.h_values[0], E.r_b, E.depth, E.m_flow_borehole, E.coordinates.id))],
-         returns=GFo(), notes="A-DET: pygfunction is a deterministic function of its arguments").applies = lambda env: True
+         returns=GFo(), notes="A-DET: pygfunction is a deterministic function of its arguments").applies = lambda env: _n_heights(env) == 1
 
 # GHE(...) constructor, caller view (flow part verified on BaseGHE.__init__ in C20)
 contract("ghedesigner.ground_heat_exchangers:GHE.__init__",
